@@ -6,6 +6,7 @@ import re
 import subprocess
 
 from vlib import core
+from vlib.checks import sched_common
 from vlib.registry import COMMON_NOTE
 
 REGISTRATION = {
@@ -34,9 +35,13 @@ THEOREMS = [
     "OllamaVerif.Lockset.mutex_handover",
     "OllamaVerif.Lockset.localHeld_sound",
     "OllamaVerif.Lockset.lockset_discipline_race_free",
+    "OllamaVerif.Lockset.lockset_discipline_race_free_local",
     "OllamaVerif.Lockset.race_free_under_sync_hypotheses",
     "OllamaVerif.Lockset.checkAll_checkClass",
     "OllamaVerif.Lockset.unlocked_reader_races",
+    "OllamaVerif.Lockset.live_pointer_not_torn_down",
+    "OllamaVerif.Lockset.validated_pointer_not_torn_down",
+    "OllamaVerif.Lockset.stale_pointer_witness",
     "OllamaVerif.Tie.C15.violations_exact",
     "OllamaVerif.Tie.C15.discipline_holds",
     "OllamaVerif.Tie.C15.classes_partition",
@@ -44,6 +49,11 @@ THEOREMS = [
     "OllamaVerif.Tie.C15.bad_classes_known",
     "OllamaVerif.Tie.C15.bad_class_names",
     "OllamaVerif.Tie.C15.race_free_good_classes",
+    "OllamaVerif.Tie.C15.stale_exact",
+    "OllamaVerif.Tie.C15.no_stale_reads",
+    "OllamaVerif.Tie.C15.teardown_locks",
+    "OllamaVerif.Tie.C15.holder_granted_runner_is_open",
+    "OllamaVerif.Tie.C15.holder_runner_not_closed_while_used",
 ]
 OVERLAY = {"server/zz_verif_c15_test.go": "server/zz_verif_c15_test.go"}
 LOCKSET_DIR = os.path.join(core.ROOT, "harness", "cmd", "lockset")
@@ -65,7 +75,21 @@ def regenerate(ctx):
     if p.returncode != 0:
         raise RuntimeError("lockset failed: " + p.stdout[-2000:])
     core.write_generated("OllamaVerif/Generated/C15_Accesses.lean", open(lean_tmp).read())
+    ctx.lockset_bin = binp
     return json.load(open(js))
+
+
+def rule_l1(ctx):
+    """L1 for the RULE: random fact tables, the translator's evaluation vs the Lean oracle's, exact."""
+    outdir = os.path.join(ctx.tmp, "rule-l1")
+    os.makedirs(outdir)
+    n = ctx.scale(3000, 60000)
+    p = subprocess.run([ctx.lockset_bin, "-selftest", str(n), "-seed", str(ctx.seed), "-out", outdir],
+                       stdout=subprocess.PIPE, stderr=subprocess.STDOUT, text=True)
+    if p.returncode != 0:
+        raise RuntimeError("lockset selftest failed: " + p.stdout[-1000:])
+    ctx.read_stats(outdir)
+    ctx.l1(outdir, label="rule")
 
 
 def pair_case(cls, ua, ub):
@@ -87,6 +111,15 @@ def static_failures(facts):
             return f"{f['site']}[{f['kind']} locks={','.join(f['locks']) or '-'} @{f['thread']}]"
         out.append({"kind": "lockset", "case": case, "detail": f"no common lock / ordering: {show(a)} vs {show(b)}"})
     return out
+
+
+def stale_failures(facts):
+    """uses of a field the teardown clears through a pointer that is neither live, re-validated, fresh nor held"""
+    return [{"kind": "stale-pointer", "case": f"{s['cls']}|{s['func']}",
+             "detail": f"{s['site']} uses {s['cls']} (cleared by runnerRef.unload) through a runner pointer that was found in "
+                       f"Scheduler.loaded but is used after loadedMu was released, without a nil re-check under refMu: "
+                       f"the runner may have been unloaded in between (torn view / nil dereference)"}
+            for s in (facts.get("stale_reads") or [])]
 
 
 class Locator:
@@ -241,12 +274,22 @@ def matcher(finding, failure):
 
 def run(ctx):
     facts = regenerate(ctx)
+    # the holder hypothesis is discharged through the scheduler tie (C01): regenerate its facts too
+    variant = sched_common.regenerate(ctx)
     ctx.lean_check(MODULES, THEOREMS)
+    if ctx.lean_ok:
+        rule_l1(ctx)
     loc = Locator(facts)
 
     # ---- static: every violating pair must be explained by a listed finding
     st = static_failures(facts)
     ctx.classify(st, matcher)
+    sf = stale_failures(facts)
+    ctx.classify(sf, matcher)
+    ctx.stats["static_stale_pointer_reads"] = len(sf)
+    ctx.stats["static_reads_of_cleared_fields"] = sum(1 for f in facts["facts"]
+                                                      if f["kind"] == "read" and f["cls"] in (facts.get("cleared_classes") or []))
+    ctx.coverage["cleared_classes"] = facts.get("cleared_classes")
     ctx.stats["static_access_facts"] = len(facts["facts"])
     ctx.stats["static_access_sites"] = len(facts["sites_all"])
     ctx.stats["static_location_classes"] = len(facts["classes"])
@@ -259,21 +302,22 @@ def run(ctx):
 
     # ---- dynamic: witness search under the race detector (several processes: the pinned
     # server can crash the process or wedge its scheduler)
-    runs = ctx.scale([(6, 2, 12, None), (6, 2, 12, None), (6, 2, 6, 4)],
-                     [(40, 8, 12, None), (40, 8, 16, 4), (40, 8, 8, 2), (40, 8, 24, 16), (40, 8, 12, 1)])
+    # (seconds of random hammering, rounds, workers, GOMAXPROCS, directed ps-during-failed-load trials)
+    runs = ctx.scale([(6, 2, 12, None, 120), (6, 2, 12, None, 120), (6, 2, 6, 4, 120)],
+                     [(40, 8, 12, None, 600), (40, 8, 16, 4, 600), (40, 8, 8, 2, 600), (40, 8, 24, 16, 600), (40, 8, 12, 1, 300)])
     if ctx.replay:
         runs = runs[:1]
     races_total = exact = unitlvl = derived = 0
-    for i, (secs, rounds, workers, procs) in enumerate(runs):
+    for i, (secs, rounds, workers, procs, trials) in enumerate(runs):
         outdir = os.path.join(ctx.tmp, f"race-{i}")
         os.makedirs(outdir)
-        env = {"VERIF_SECS": secs, "VERIF_ROUNDS": rounds, "VERIF_WORKERS": workers,
+        env = {"VERIF_SECS": secs, "VERIF_ROUNDS": rounds, "VERIF_WORKERS": workers, "VERIF_TRIALS": trials,
                "VERIF_SEED": ctx.seed * 1000 + i,
                "GORACE": f"log_path={outdir}/race halt_on_error=0 history_size=3"}
         if procs:
             env["GOMAXPROCS"] = procs
         rc, out, _ = ctx.go_test("./server/", OVERLAY, "^TestVerifC15$", env=env, race=True,
-                                 timeout=secs + rounds * 8 + 240, outdir=outdir)
+                                 timeout=secs + rounds * 8 + trials // 2 + 240, outdir=outdir)
         text = out + "".join(open(p, errors="replace").read() for p in sorted(glob.glob(outdir + "/race.*")))
         races = parse_races(text, core.REPO)
         races_total += len(races)
@@ -299,12 +343,22 @@ def run(ctx):
     ctx.stats["race_reports_matched_exact_line_and_class"] = exact
     ctx.stats["race_reports_matched_function_pair"] = unitlvl
     ctx.stats["race_reports_derived_from_racy_reference"] = derived
+    holder_ok = all(t in ctx.discharged for t in ("OllamaVerif.Tie.C15.holder_granted_runner_is_open",
+                                                  "OllamaVerif.Tie.C15.holder_runner_not_closed_while_used"))
+    if holder_ok and variant == "good":
+        holder_text = ("holder ordering (the handler's read of runner.llama after the hand-over vs unload): not assumed — for the "
+                       "scheduler variant extracted from this tree (recheckGrant, guardDelete) it is C01's theorems, instantiated "
+                       "in Tie.C15.holder_granted_runner_is_open / holder_runner_not_closed_while_used; what remains assumed is "
+                       "C01's model-to-code correspondence (its own differential check)")
+    else:
+        holder_text = ("holder hypothesis (C01): no unload of a runner between its hand-over on successCh and the end of the "
+                       "request — NOT discharged for this tree (the scheduler tie does not classify it as the guarded variant)")
+    ctx.coverage["holder_hypothesis_discharged"] = bool(holder_ok and variant == "good")
     ctx.assumptions += [
         "one Scheduler and one Server per process (their mutexes are treated as global locks)",
         "HTTP handlers start after Serve's srvr.Serve call (spawn order for Server.sched)",
         "a blobDownload/blobUpload is prepared and its Run goroutine spawned by exactly one invocation (the sync.Map LoadOrStore winner)",
-        "holder hypothesis (C01): no unload of a runner between its hand-over on successCh and the end of the request — "
-        "FALSE on the pinned tree, see known finding F13d",
+        holder_text,
         "the race detector only confirms races on schedules that occurred; absence of a report proves nothing",
     ]
     if ctx.thorough:
